@@ -1,4 +1,5 @@
 import ServiceModel.Proofs.Reachable
+import ServiceModel.Proofs.Eventually
 /-!
 # C11 — A running context is never stranded
 -/
@@ -70,5 +71,22 @@ theorem nothing_left_at_ended_height (hc : CfgOK cfg p) {s : State} (hr : Reacha
       exact ⟨j3, j4⟩
     · simp only [hp2] at hnp; cases hnp
   · simp only [hp1] at hnp; cases hnp
+
+/-- When block `H` ends, no request whose expiry height is `H` is pending any more: it was expired (slashed and
+    refunded, C02/C04) by that very end of block unless it had been answered before. -/
+theorem pending_request_gone_after_its_expiry_block (hc : CfgOK cfg p) {s : State} (hr : Reachable cfg p h0 t0 s)
+    (dt : Int) (r : ReqId) (q : Req) (hq : Map.get s.reqs r = some q) (he : q.expH = s.height) :
+    r ∉ (endBlock s dt).s.activeI := expiry_block_clears s dt (reachable_inv hc hr) r q hq he
+
+/-- "Eventually answered or expired", over every history: along every well-formed continuation, a request that is
+    still pending has not passed its expiry height (fixed when it was issued) … -/
+theorem pending_request_never_outlives_expiry (hc : CfgOK cfg p) {s s' : State} (hr : Reachable cfg p h0 t0 s)
+    (hl : Leads s s') (r : ReqId) (q : Req) (hact : r ∈ s.activeI) (hq : Map.get s.reqs r = some q)
+    (hact' : r ∈ s'.activeI) : s'.height ≤ q.expH := pending_bounded hc hr hl r q hact hq hact'
+
+/-- … and every block raises the height by exactly one, so after at most `expiry − height + 1` further blocks the
+    request is no longer pending (and, by C02, has been settled exactly once). -/
+theorem every_block_advances_height (hc : CfgOK cfg p) {s : State} (hr : Reachable cfg p h0 t0 s) (dt : Int) :
+    (step s (.endblock dt)).1.height = s.height + 1 := endblock_advances (reachable_inv hc hr) dt
 
 end SM.C11
